@@ -11,8 +11,8 @@ def run(ck, ctx):
         "O-segment (no symbol spans two clauses, every fold starts at a clause begin); O-value: folding a clause adds exactly its "
         "documented key, the value under that key contains every value word of the clause as written, and nothing else on the "
         "table changes (name, columns, keys, constraints, other clauses) - evaluated abstractly on the real action code.")
-    for g in GROUPS:
-        run_fragment(ck, ctx, "clauses", group=g, tier=ck.tier)
+    from ..rules.fragments import run_fragments
+    run_fragments(ck, ctx, [dict(module="clauses", build_kw=dict(group=g, tier=ck.tier)) for g in GROUPS])
     ck.assumptions += ["words are separated as pre_process_data intends", "value post-processing of individual clauses is not decided "
                        "beyond 'contains the words as written'",
                        "placement at top level vs table_properties per output mode is decided by the C10 checks"]
